@@ -513,7 +513,7 @@ func init() {
 				}},
 				// uses next to postfix operators, loops inside component files and quoted quotes: every use shows its own arguments,
 				// the page's variables and loop object are what they were
-				{Name: "uses-among-operators-loops-and-quotes", Exhaustive: true, N: 9, Run: func(c *core.Ctx, i int) {
+				{Name: "uses-among-operators-loops-and-quotes", Exhaustive: true, N: 11, Run: func(c *core.Ctx, i int) {
 					var files map[string]string
 					var data map[string]any
 					var want string
@@ -547,6 +547,14 @@ func init() {
 							"page.tw": "@component(\"~wide\", {a: 1, b: {p: 1, q: 2, r: 3, s: 4, t: 5}, c: 3, d: 4, e: {m: {h: 1, i: 2, j: 3, k: 4, l: 5, zz: 6}, n: 7, o: 8, p: 9, q: 10}, f: {u: 1, v: 2, w: 3, x: 4, y: 5, z: 6}, g: \"last\"})" +
 								"@each(k in [1, 2])@component(\"~wide\", {g: k, f: {z: k, y: 0, x: 0, w: 0, v: 0, u: k}, e: {q: 0, p: 0, o: 0, n: k, m: {zz: 0, l: 5, k: 4, j: 3, i: 2, h: k}}, d: 4, c: 3, b: {t: 5, s: 4, r: 3, q: 2, p: k}, a: k})@end"}
 						want = "<1|12345|3|4|123457|61|last><1|12345|3|4|123451|11|1><2|22345|3|4|223452|22|2>"
+					case 9: // round 17: prefix operators inside the component file on values of the page handed in as arguments: every use starts from the page's value
+						files = map[string]string{"components/debit.tw": "<{{ -amount }}|{{ amount }}|{{ !flag }}|{{ flag }}|{{ -count }}>",
+							"page.tw": "@component(\"~debit\", {amount: price, flag: on, count: n})|@component(\"~debit\", {amount: price, flag: on, count: n})@each(k in [1, 2])@component(\"~debit\", {amount: price, flag: on, count: n})@end{{ price }}{{ on }}{{ n }}"}
+						data = map[string]any{"price": 2.5, "on": true, "n": 4}
+						want = "<-2.5|2.5|0|1|-4>|<-2.5|2.5|0|1|-4><-2.5|2.5|0|1|-4><-2.5|2.5|0|1|-4>2.514"
+					case 10: // round 17: prefix operators in the arguments, on names assigned by the page
+						files = map[string]string{"components/show.tw": "<{{ p }}/{{ q }}>", "page.tw": "{{ price = 4.5 }}{{ n = 3 }}@component(\"~show\", {p: -price, q: -n})@component(\"~show\", {p: -price, q: -n})@each(k in [1, 2])@component(\"~show\", {p: -price, q: -(-n)})@end{{ price }}/{{ n }}"}
+						want = "<-4.5/-3><-4.5/-3><-4.5/3><-4.5/3>4.5/3"
 					default: // a float decremented in every pass of a loop of the page and handed to the use
 						files = map[string]string{"components/show.tw": "<{{ p }}>", "page.tw": "{{ price = 2.5 }}@each(k in [1, 2, 3])@component(\"~show\", {p: price--}){{ price }};@end"}
 						want = "<1.5>2.5;<1.5>2.5;<1.5>2.5;"
